@@ -119,6 +119,29 @@ pub fn deep_doc(shape: &str, d: usize) -> String {
             (0..d).for_each(|_| s.push_str(",0"));
             s.push(']');
         }
+        // one string holding d consecutive escapes of a kind: unpaired high surrogates (accepted
+        // only with accept_truncated_surrogate_pair), lone low surrogates (only with
+        // accept_invalid_codepoints), well-formed pairs; as a value and as a key
+        "hi_run" => {
+            s.push('"');
+            (0..d).for_each(|_| s.push_str("\\ud800"));
+            s.push('"');
+        }
+        "lo_run" => {
+            s.push_str("[\"");
+            (0..d).for_each(|_| s.push_str("\\udc00"));
+            s.push_str("\"]");
+        }
+        "pair_run" => {
+            s.push('"');
+            (0..d).for_each(|_| s.push_str("\\ud83d\\ude00"));
+            s.push('"');
+        }
+        "hi_run_key" => {
+            s.push_str("{\"");
+            (0..d).for_each(|_| s.push_str("\\udbff"));
+            s.push_str("x\":0}");
+        }
         "wide_obj" => {
             s.push_str("{\"a\":0");
             (0..d).for_each(|_| s.push_str(",\"a\":0"));
